@@ -65,7 +65,11 @@ def seeded_table():
                 ok += 1
             rows.append('| %s | %s | %s | %s | %s |' % (sid, pid, m['title'].replace('|', '\\|')[:150], res.get('exit'), by))
     rows.append('')
-    rows.append('%d of %d seeded changes are reported as a VIOLATION of their property (exit 1).' % (ok, n))
+    named = sum(1 for r_ in rows if 'obligation `' in r_)
+    only = sum(1 for r_ in rows if 'no-failing-input-found' in r_)
+    rows.append('%d of %d seeded changes are reported as a VIOLATION of their property (exit 1); %d of them name a failed obligation of the '
+                'deductive part (%d with no concrete input), the other %d are reported through a concrete failing input of a bounded driver '
+                'while the deductive part is undecided (the change left the verified subset) or silent.' % (ok, n, named, only, ok - named))
     return '\n'.join(rows)
 
 
